@@ -33,12 +33,9 @@ package fragmentbuffer
 //@ define U24(s, i) (uint32(s[i])<<16 | uint32(s[(i)+1])<<8 | uint32(s[(i)+2]))
 
 //@ func FragmentBuffer.Pop
-//@ requires wf: wf(f)
-//@ requires wf-keys: wfkeys(f)
-//@ requires wf-data: wfdata(f)
-//@ ensures wf: wf(f)
-//@ ensures wf-keys: wfkeys(f)
-//@ ensures wf-data: wfdata(f)
+//@ invariant wf: wf(f)
+//@ invariant wf-keys: wfkeys(f)
+//@ invariant wf-data: wfdata(f)
 //@ ensures absent-gives-nil: !old(hasKey(f.cache, CUR(f))) ==> content == nil
 //@ ensures incomplete-gives-nil: old(hasKey(f.cache, CUR(f))) && old(ENTRY(f).fragmentsLength != ENTRY(f).handshakeLength) ==> content == nil
 //@ ensures no-first-fragment-gives-nil: old(hasKey(f.cache, CUR(f))) && !old(hasKey(ENTRY(f).fragmentByOffset, 0)) ==> content == nil
@@ -98,13 +95,11 @@ package fragmentbuffer
 //@ end
 
 //@ func FragmentBuffer.Push
-//@ requires wf: wf(f)
-//@ requires wf-keys: wfkeys(f)
-//@ requires wf-data: wfdata(f)
-//@ requires within-limits: capwf(f)
-//@ ensures wf: wf(f)
-//@ ensures wf-keys: wfkeys(f)
-//@ ensures wf-data: wfdata(f)
+//@ invariant wf: wf(f)
+//@ invariant wf-keys: wfkeys(f)
+//@ invariant wf-data: wfdata(f)
+//@ invariant within-limits: capwf(f)
+//@ requires datagram-size: len(buf) <= 8192
 //@ ensures cursor-kept: CUR(f) == old(CUR(f))
 //@ ensures nothing-below-cursor: forallU16(func(s uint16) bool { return s < CUR(f) ==> !hasKey(f.cache, s) })
 //@ ensures over-limit-refused: old(f.totalBufferSize) + len(buf) >= fragmentBufferMaxSize || old(f.totalFragmentCount) >= fragmentBufferMaxCount ==> err != nil && !isHandshake
@@ -113,7 +108,6 @@ package fragmentbuffer
 //@ ensures bytes-bounded: f.totalBufferSize >= old(f.totalBufferSize) && (f.totalBufferSize == old(f.totalBufferSize) || f.totalBufferSize < fragmentBufferMaxSize)
 //@ ensures count-bounded: f.totalFragmentCount >= old(f.totalFragmentCount) && (f.totalFragmentCount == old(f.totalFragmentCount) || old(f.totalFragmentCount) < fragmentBufferMaxCount)
 //@     && f.totalFragmentCount - old(f.totalFragmentCount) <= len(buf) && 12*(f.totalFragmentCount - old(f.totalFragmentCount)) <= len(buf)
-//@ ensures within-limits: len(buf) <= 8192 ==> capwf(f)
 //@ ensures accepted-below-limit: isHandshake ==> f.totalBufferSize < fragmentBufferMaxSize
 //@ end
 
@@ -126,11 +120,8 @@ package fragmentbuffer
 // Consequently wfkeys(f), which Push/Pop require, is not re-established after AdvanceTo by this proof.
 
 //@ func FragmentBuffer.AdvanceTo
-//@ requires wf: wf(f)
-//@ requires wf-keys: wfkeys(f)
-//@ requires wf-data: wfdata(f)
-//@ ensures wf: wf(f)
-//@ ensures wf-data: wfdata(f)
+//@ invariant wf: wf(f)
+//@ invariant wf-data: wfdata(f)
 //@ ensures never-backwards: messageSequence <= old(CUR(f)) ==> CUR(f) == old(CUR(f)) && len(f.cache) == old(len(f.cache)) && f.totalBufferSize == old(f.totalBufferSize) && f.totalFragmentCount == old(f.totalFragmentCount)
 //@ ensures forwards: messageSequence > old(CUR(f)) ==> CUR(f) == messageSequence
 //@ ensures others-kept: forallU16(func(s uint16) bool { return s >= CUR(f) ==> hasKey(f.cache, s) == old(hasKey(f.cache, s)) && f.cache[s] == old(f.cache[s]) })
